@@ -292,12 +292,21 @@ def reassembly_case(rng, kind, text, style):
     side = Stream(rng)
     side.ts = 100000
     chunks = emit_text(side, kind, tid, text, ident)
+    # an unrelated operation of the SAME thread that CROSSES the text: its START in front of the first chunk, its END between
+    # two chunks (a syscall interrupted by a lookup that outlives it; intervals that overlap without nesting)
+    cross_at = None
+    if style in ('same', 'both', 'window') and len(chunks) >= 2 and rng.random() < 0.3:
+        cross_name = rng.choice(['BSC_getpid', 'BSC_read', 'BSC_write'])
+        s.ev(cross_name, START, tid, PL.good_args(cross_name) or [0, 0, 0, 0])
+        cross_at = rng.randrange(len(chunks) - 1)
     chunk_ts = []
     for i, c in enumerate(chunks):
         s.ts += 1
         rec = s.ts.to_bytes(8, 'little') + c[8:]
         s.recs.append(rec)
         chunk_ts.append(s.ts)
+        if cross_at == i:
+            s.ev(cross_name, END, tid, [0, 7, 0, 0])
         if i < len(chunks) - 1 or rng.random() < 0.3:
             if style in ('other', 'both'):
                 for _ in range(rng.randrange(1, 3)):
